@@ -18,6 +18,11 @@ package main
 //            net.Pipe ends served by an echo goroutine; pool=werr,..,werr[,ok]: the ONE pooled connection fails its next
 //            n Writes (a TCP pipelined connection is not closed by a failed Write, so the pool hands it out again):
 //            pins the pipelined retry constant on the real loop. att is the number of Writes, also on success.
+//     tr=doq: a quic:// upstream against a quic-go server. The ONE cached connection is pool[0]; its behaviour
+//            (fin = stream closed without data, rst = stream reset, garbage, silent, half) applies to EVERY stream
+//            opened on it, as the connection itself stays alive; ifin = the server closes the connection while idle.
+//            dial tokens: ok | blackhole (a UDP socket that swallows everything) | efin (connection closed right
+//            after the handshake) | silent | half | garbage | fin | rst (per stream). att = streams the server saw.
 //   result: res=<REPLY|ERR|HANG> dials=<n|-> att=<n|-> when=<early|dl> late=<0|1>
 //     dials: sockets created by the upstream's dialer during the measured exchange (Opt.Control hook)
 //     att  : on ERR, the number of joined errors (= loop iterations of ExchangeContext); '-' when not observable
@@ -49,6 +54,7 @@ import (
 	"github.com/IrineSistiana/mosproxy/internal/upstream"
 	"github.com/IrineSistiana/mosproxy/internal/upstream/transport"
 	"github.com/IrineSistiana/mosproxy/verifharness/hx"
+	"github.com/quic-go/quic-go"
 )
 
 func init() { register("faults", 12, runFaults) }
@@ -544,6 +550,9 @@ func faultsCase(f map[string]string) string {
 	if tr == "pfake" {
 		return pfakeCase(f)
 	}
+	if tr == "doq" {
+		return doqCase(f)
+	}
 	pool := c14Tokens(f["pool"])
 	dial := c14Tokens(f["dial"])
 	dl := time.Duration(hx.MustAtoi(f["dl"])) * time.Millisecond
@@ -921,5 +930,190 @@ func pfakeCase(f map[string]string) string {
 		return fmt.Sprintf("res=%s dials=%d att=%d when=%s late=%d", cls, dials.Load()-d0, att, when, late)
 	case <-time.After(dl + 5*time.Second):
 		return fmt.Sprintf("res=HANG dials=%d att=%d when=dl late=1", dials.Load()-d0, writes.Load()-w0)
+	}
+}
+
+// ---------------------------------------------------------------- tr=doq
+
+func doqCase(f map[string]string) string {
+	pool := c14Tokens(f["pool"])
+	dial := c14Tokens(f["dial"])
+	dl := time.Duration(hx.MustAtoi(f["dl"])) * time.Millisecond
+	cert, err := c14ServerCert()
+	if err != nil {
+		return "HARNESS-ERROR cert " + err.Error()
+	}
+	done := make(chan struct{})
+	defer close(done)
+	var mu sync.Mutex
+	phase := 0
+	var pooled []quic.Connection
+	newCount := 0
+	var streams atomic.Int32
+	first := "ok"
+	if len(dial) > 0 {
+		first = dial[0]
+	}
+	var port int
+	if first == "blackhole" && len(pool) == 0 {
+		uc, err := net.ListenUDP("udp", &net.UDPAddr{IP: net.IPv4(127, 0, 0, 1)})
+		if err != nil {
+			return "HARNESS-ERROR " + err.Error()
+		}
+		defer uc.Close()
+		port = uc.LocalAddr().(*net.UDPAddr).Port
+		go func() {
+			b := make([]byte, 2048)
+			for {
+				if _, _, err := uc.ReadFromUDP(b); err != nil {
+					return
+				}
+			}
+		}()
+	} else {
+		ln, err := quic.ListenAddr("127.0.0.1:0", &tls.Config{Certificates: []tls.Certificate{cert}, NextProtos: []string{"doq"}},
+			&quic.Config{MaxIdleTimeout: 30 * time.Second})
+		if err != nil {
+			return "HARNESS-ERROR " + err.Error()
+		}
+		defer ln.Close()
+		port = ln.Addr().(*net.UDPAddr).Port
+		serveStream := func(st quic.Stream, beh string) {
+			var h [2]byte
+			if _, err := io.ReadFull(st, h[:]); err != nil {
+				return
+			}
+			q := make([]byte, binary.BigEndian.Uint16(h[:]))
+			if _, err := io.ReadFull(st, q); err != nil {
+				return
+			}
+			mu.Lock()
+			ph := phase
+			mu.Unlock()
+			if ph == 0 {
+				st.Write(c14Frame(hx.BuildReply(q, false, 0, [4]byte{9, 9, 9, 9}, 60)))
+				st.Close()
+				return
+			}
+			streams.Add(1)
+			switch beh {
+			case "ok":
+				st.Write(c14Frame(hx.BuildReply(q, false, 0, [4]byte{1, 4, 1, 4}, 60)))
+				st.Close()
+			case "silent":
+				<-done
+			case "half":
+				st.Write(c14Frame(hx.BuildReply(q, false, 0, [4]byte{1, 4, 1, 4}, 60))[:7])
+				<-done
+			case "garbage":
+				st.Write(c14Frame(c14Garbage(q)))
+				st.Close()
+			case "fin":
+				st.Close()
+			case "rst":
+				st.CancelWrite(1)
+			default:
+				st.Close()
+			}
+		}
+		go func() {
+			for {
+				c, err := ln.Accept(context.Background())
+				if err != nil {
+					return
+				}
+				mu.Lock()
+				beh := "ok"
+				isPooled := phase == 0
+				if isPooled {
+					pooled = append(pooled, c)
+				} else {
+					if newCount < len(dial) {
+						beh = dial[newCount]
+					}
+					newCount++
+				}
+				mu.Unlock()
+				if beh == "efin" {
+					c.CloseWithError(0, "")
+					continue
+				}
+				go func() {
+					for {
+						st, err := c.AcceptStream(context.Background())
+						if err != nil {
+							return
+						}
+						b := beh
+						if isPooled && len(pool) > 0 {
+							b = pool[0]
+						}
+						go serveStream(st, b)
+					}
+				}()
+			}
+		}()
+	}
+
+	u, err := upstream.NewUpstream(fmt.Sprintf("quic://127.0.0.1:%d", port), upstream.Opt{TLSConfig: &tls.Config{InsecureSkipVerify: true}})
+	if err != nil {
+		return "HARNESS-ERROR " + err.Error()
+	}
+	defer u.Close()
+	qt, _ := u.(*transport.QuicTransport)
+	name := []byte("\x03c14\x04test")
+	if len(pool) > 0 {
+		ctx, cancel := context.WithTimeout(context.Background(), 5*time.Second)
+		_, err := u.ExchangeContext(ctx, hx.BuildQuery(0x1000, name, 1, 1, true))
+		cancel()
+		if err != nil || qt == nil || !qt.VerifHasConn() {
+			return fmt.Sprintf("HARNESS-ERROR doq warm-up failed: %v", err)
+		}
+		if pool[0] == "ifin" {
+			mu.Lock()
+			for _, c := range pooled {
+				c.CloseWithError(0, "")
+			}
+			mu.Unlock()
+		}
+	}
+	mu.Lock()
+	phase = 1
+	mu.Unlock()
+	if len(pool) > 0 {
+		time.Sleep(80 * time.Millisecond)
+	}
+	type result struct {
+		ok bool
+		el time.Duration
+	}
+	rc := make(chan result, 1)
+	go func() {
+		t0 := time.Now()
+		ctx, cancel := context.WithTimeout(context.Background(), dl)
+		defer cancel()
+		r, err := u.ExchangeContext(ctx, hx.BuildQuery(0xC014, name, 1, 1, true))
+		rc <- result{ok: err == nil && r != nil && r.Header.ID == 0xC014 && len(r.Answers) == 1, el: time.Since(t0)}
+	}()
+	select {
+	case res := <-rc:
+		time.Sleep(20 * time.Millisecond)
+		cls, when, late := "ERR", "early", 0
+		if res.ok {
+			cls = "REPLY"
+		}
+		if res.el >= dl {
+			when = "dl"
+		}
+		if res.el > dl+c14Slack {
+			late = 1
+		}
+		att := "-"
+		if n := streams.Load(); n > 0 {
+			att = fmt.Sprint(n)
+		}
+		return fmt.Sprintf("res=%s dials=- att=%s when=%s late=%d", cls, att, when, late)
+	case <-time.After(dl + 5*time.Second):
+		return "res=HANG dials=- att=- when=dl late=1"
 	}
 }
